@@ -153,3 +153,90 @@ READER_INPUT = r"""
   uint8_t in_img[64]; for (int wi_ = 0; wi_ < 64; wi_++) in_img[wi_] = ((size_t)wi_ < in_size) ? in_bytes[wi_] : 0;
 """
 READER_REPLAY_VARS = {"SIZE": "val('in_size')", "BYTES": "''.join('%d,' % (int(x) & 255) for x in arr('in_img', 64))"}
+
+
+def div_to_uf(fn_name="FDIV", op="/"):
+    """structural rule: every binary '/' becomes FDIV(<left>, <right>), where the operands are the primary/postfix expressions adjacent to the operator
+    (identifier chains with -> . [..] (..) and balanced parenthesised groups); purely syntactic, all divisions of the function are rewritten."""
+    def is_id(c):
+        return c.isalnum() or c in "_."
+    def left_start(b, j):
+        # j: index of last char of the left operand
+        while j >= 0:
+            c = b[j]
+            if c in ")]":
+                close, op = c, "(" if c == ")" else "["
+                depth = 0
+                while j >= 0:
+                    if b[j] == close: depth += 1
+                    elif b[j] == op:
+                        depth -= 1
+                        if depth == 0: break
+                    j -= 1
+                j -= 1
+            elif is_id(c):
+                while j >= 0 and is_id(b[j]): j -= 1
+            elif c == ">" and j > 0 and b[j - 1] == "-":
+                j -= 2
+            else:
+                break
+            # continue only if what precedes is part of the same postfix chain
+            if j >= 0 and not (is_id(b[j]) or b[j] in ")]" or (b[j] == ">" and j > 0 and b[j - 1] == "-")):
+                break
+        return j + 1
+    def right_end(b, j):
+        # j: index of first char of the right operand
+        n = len(b)
+        if j < n and b[j] in "-+": j += 1
+        while j < n:
+            c = b[j]
+            if c in "([":
+                op, close = c, ")" if c == "(" else "]"
+                depth = 0
+                while j < n:
+                    if b[j] == op: depth += 1
+                    elif b[j] == close:
+                        depth -= 1
+                        if depth == 0: break
+                    j += 1
+                j += 1
+            elif is_id(c):
+                while j < n and is_id(b[j]): j += 1
+            elif c == "-" and j + 1 < n and b[j + 1] == ">":
+                j += 2
+            else:
+                break
+        return j
+    import re as _re
+    re_decl = _re.compile(r"\b(?:const\s+)?(?:T|W|double|float|char|void|bool|u?int\d+_t|size_t|struct \w+)\s*\*$")
+    def rule(body):
+        n = 0
+        pos = 0
+        while True:
+            k = body.find(op, pos)
+            if k < 0:
+                break
+            if body[k:k + 2] in ("/=", "//", "/*", "*=", "*/") or (k > 0 and body[k - 1] in "*/"):
+                pos = k + 1
+                continue
+            l = k - 1
+            while l >= 0 and body[l].isspace(): l -= 1
+            if l < 0 or not (is_id(body[l]) or body[l] in ")]"):
+                pos = k + 1        # not a binary operator here (unary * after an operator or an opening bracket)
+                continue
+            if op == "*" and re_decl.search(body[max(0, l - 40):k + 1]):
+                pos = k + 1        # 'T* p' / 'const T* p' declarator
+                continue
+            r = k + 1
+            while r < len(body) and body[r].isspace(): r += 1
+            ls = left_start(body, l)
+            re_ = right_end(body, r)
+            left, right = body[ls:l + 1], body[r:re_]
+            if not left or not right:
+                raise ValueError("div_to_uf: cannot parse operands around offset %d" % k)
+            rep = "%s(%s, %s)" % (fn_name, left, right)
+            body = body[:ls] + rep + body[re_:]
+            pos = ls + len(fn_name) + 1    # rescan inside (nested divisions in the operands)
+            n += 1
+        return body, n
+    return rule
